@@ -33,7 +33,7 @@ BASE = dict(
     variants={}, faults={}, p_fault=0.0, reject=0.0, tight=0.35,
     treacherous=0.5, shapes=0.05, str_dtype=0.3, measures=SET_JOINS,
     threads=0.2, process=0.5, extras=0.5, outs=0.5, big=0.1,
-    wrong_mode_filters=0.0, siblings=0.08)
+    wrong_mode_filters=0.0, siblings=0.08, retune=0.0, qgram_pref=0.2)
 
 
 def profile(prop):
@@ -48,7 +48,7 @@ def profile(prop):
     elif prop == 'C04':
         p.update(ops={'filter_tables': 0.45, 'filter_candset': 0.25,
                       'filter_pair': 0.3}, tight=0.6, treacherous=0.7,
-                 hist=(1, 3), big=0.2, siblings=0.3)
+                 hist=(1, 3), big=0.2, siblings=0.3, retune=0.1)
     elif prop == 'C05':
         p.update(ops={'apply_matcher': 1.0}, hist=(1, 2), p_missing=0.12)
     elif prop == 'C06':
@@ -64,9 +64,10 @@ def profile(prop):
                  measures=SET_JOINS + ['EDIT_DISTANCE'], tight=0.1,
                  twin_nomissing=0.4, outs=0.6)
     elif prop == 'C09':
-        p.update(ops={'join': 0.6, 'filter_tables': 0.25, 'filter_pair': 0.08,
-                      'filter_candset': 0.07},
-                 p_empty=0.35, tight=0.1, empty_bias=True)
+        p.update(ops={'join': 0.45, 'filter_tables': 0.3, 'filter_pair': 0.12,
+                      'filter_candset': 0.13}, qgram_pref=0.5,
+                 p_empty=0.35, tight=0.1, empty_bias=True, hist=(1, 3),
+                 retune=0.25)
     elif prop == 'C10':
         p.update(ops={'join': 0.45, 'filter_tables': 0.2,
                       'filter_candset': 0.12, 'apply_matcher': 0.15,
@@ -91,7 +92,7 @@ def profile(prop):
                  faults={'worker_crash': 0.3, 'tok_raise': 0.5,
                          'sim_raise': 0.2}, p_fault=0.2, rows=(0, 8),
                  tight=0.1, wrong_mode_filters=0.3, chain_candsets=0.5,
-                 threads=0.35, siblings=0.25)
+                 threads=0.35, siblings=0.25, retune=0.08)
     elif prop == 'C15':
         p.update(ops={'join': 0.4, 'filter_tables': 0.2, 'filter_candset': 0.1,
                       'apply_matcher': 0.1, 'filter_pair': 0.05,
@@ -805,7 +806,8 @@ def gen_join(g):
         op['comp_op'] = rng.choice(['<=', '<=', '<=', '<', '='])
     else:
         x = rng.random()
-        name, spec = pick_tok(g, 'word' if x < 0.8 else 'qgram')
+        name, spec = pick_tok(g, 'word' if x >= prof['qgram_pref']
+                              else 'qgram')
         op['tok'] = name
         if spec['kind'] == 'qgram':
             op['l_attr'], op['r_attr'] = l['s'], r['s']
@@ -846,7 +848,8 @@ def gen_filter_spec(g, kind=None, measure=None, judged=True):
     spec = {'kind': kind}
     wrong = (not judged) or rng.random() < prof['wrong_mode_filters']
     if kind == 'OverlapFilter':
-        name, tspec = pick_tok(g, 'word' if rng.random() < 0.8 else None,
+        name, tspec = pick_tok(g, 'word' if rng.random() >= prof['qgram_pref'] else
+                               'qgram',
                                None if wrong else True)
         spec.update(tokenizer=name, threshold=rng.choice([1, 1, 2, 3, 4]),
                     comp_op=rng.choice(['>=', '>=', '>', '=']),
@@ -857,7 +860,8 @@ def gen_filter_spec(g, kind=None, measure=None, judged=True):
         name, tspec = pick_tok(g, 'qgram', None if wrong else False)
         thr = rng.choice([0, 1, 1, 2, 2, 3])
     else:
-        name, tspec = pick_tok(g, 'word' if rng.random() < 0.8 else None,
+        name, tspec = pick_tok(g, 'word' if rng.random() >= prof['qgram_pref'] else
+                               'qgram',
                                None if wrong else True)
         thr = gen_threshold(rng, measure, prof)
     spec.update(tokenizer=name, measure=measure, threshold=thr,
@@ -1242,6 +1246,48 @@ def gen_sibling(g, op):
     return sib
 
 
+def tok_of_op(g, op):
+    k = op.get('op')
+    if k in ('join', 'apply_matcher', 'pipeline'):
+        t = op.get('tok')
+        return t if isinstance(t, str) and not t.startswith('DEFAULT') \
+            else None
+    if k in ('filter_tables', 'filter_candset', 'filter_pair'):
+        return g.case['filters'][op['filter']]['tokenizer']
+    return None
+
+
+def gen_retune(g, prefer=None):
+    """The caller reconfigures one of its own tokenizer objects between two
+    calls."""
+    rng = g.rng
+    if not g.toks:
+        return None
+    i = rng.randrange(len(g.toks))
+    if prefer is not None:
+        for j, (nm, _) in enumerate(g.toks):
+            if nm == prefer:
+                i = j
+    name, spec = g.toks[i]
+    new = dict(spec)
+    ch = {}
+    if spec['kind'] == 'qgram' and rng.random() < 0.7:
+        if rng.random() < 0.7:
+            ch['qval'] = rng.choice([q for q in (1, 2, 3, 4)
+                                     if q != spec['qval']])
+        else:
+            ch['padding'] = not spec.get('padding', True)
+    elif spec['kind'] == 'delim' and rng.random() < 0.5:
+        ch['delims'] = rng.choice([d for d in ([' '], [',', ' '], [','],
+                                               [' ', '\t', ','])
+                                   if d != spec.get('delims')])
+    else:
+        ch['return_set'] = not spec['return_set']
+    new.update(ch)
+    g.toks[i] = (name, new)
+    return {'op': 'retune', 'tok': name, 'set': ch}
+
+
 def generate(prop, seed, run, overrides=None):
     rng = random.Random(mix(seed, PROP_NO[prop], run))
     prof = profile(prop)
@@ -1257,6 +1303,33 @@ def generate(prop, seed, run, overrides=None):
     tot = sum(w for _, w in kinds)
     from sim import genreject
     for i in range(n_ops):
+        if prof.get('retune') and case['history'] and \
+                rng.random() < prof['retune']:
+            prev = None
+            for o in reversed(case['history']):
+                if o['op'] in ('join', 'filter_tables', 'filter_candset',
+                               'filter_pair', 'apply_matcher'):
+                    prev = o
+                    break
+            pt = tok_of_op(g, prev) if prev is not None else None
+            op = gen_retune(g, pt if rng.random() < 0.8 else None)
+            if op:
+                case['history'].append(op)
+                if prev is not None and op['tok'] == pt and \
+                        rng.random() < 0.7:
+                    # the same call again, on the same objects, after the
+                    # caller's reconfiguration: what a memo keyed by object
+                    # identity gets wrong
+                    import copy
+                    again = copy.deepcopy(prev)
+                    for k2 in ('variants', 'fault'):
+                        again.pop(k2, None)
+                    if 'plan' in again:
+                        again['plan'] = gen_plan(g)
+                    if 'n_jobs' in again and rng.random() < 0.5:
+                        again['n_jobs'] = rng.choice([1, 1, 2, 3])
+                    case['history'].append(again)
+                    continue
         if prof['reject'] and rng.random() < prof['reject']:
             op = genreject.gen_reject(g)
             if op:
